@@ -213,6 +213,7 @@ def main(argv=None):
                     g['samples'].extend(r['samples'][:2])
                 g['wall'] = max(g['wall'], r['wall'])
                 g['max_approach'] = max(g.get('max_approach', 0.0), r.get('max_approach', 0.0))
+                g['cut_short'] = g.get('cut_short', False) or bool(r.get('cut_short'))
                 if r['exhaustive'] is not None:
                     g['exhaustive'] = r['exhaustive'] if g['exhaustive'] is None else (g['exhaustive'] and r['exhaustive'])
                 if r['error']:
@@ -247,6 +248,7 @@ def main(argv=None):
             'wall_s': round(g['wall'], 2),
             # largest (error / tolerance) over the tolerance comparisons that passed: how much head-room the stated tolerances had on what was explored
             'closest_approach_to_a_tolerance': round(g.get('max_approach', 0.0), 6),
+            'search_cut_short_by_time_budget': bool(g.get('cut_short', False)),
         }
         for s in g['samples'][:2]:
             samples.append({'clause': cname, 'case': _trim(s)})
@@ -275,6 +277,9 @@ def main(argv=None):
         print('%-28s %-10s eval=%-7d nontrivial=%-7d known_hits=%s wall=%.1fs%s' % (
             cname, g['kind'], g['evaluations'], len(g['nontrivial']), sum(g['known_hits'].values()), g['wall'],
             ' EXHAUSTIVE' if g['exhaustive'] else ''))
+    for cname, g in agg.items():
+        if g.get('cut_short'):
+            print('NOTE: clause %s: a shard reached its search time budget; the search stopped there (evaluations above are what was explored)' % cname)
     for line in known_lines:
         print(line)
     if errors:
